@@ -60,6 +60,17 @@ claim("C02", "Coq theorems for all valid profiles and scripts: threshold = floor
 claim("C08", "Coq theorems: neutrality of EVERY rule and utility as an exact commutation with any equality-respecting renaming (free theorem obtained with Paramcoq, re-checked by the kernel, no axioms); anonymity/representation independence (reordering, splitting, merging, condensing, candidate order) for scoring utilities, one-shot rules and whole STV runs on the deterministic path; per-run correspondence plus metamorphic re-runs (hostile renamings, shuffles, splits, merges, candidate tuples) and re-runs in fresh interpreters under other PYTHONHASHSEED values.",
       COMMON_NOTE + "Hash-seed independence is decided by differential execution across interpreters (no counterpart in the model). Anonymity theorems for TopTwo/Alaska/DominatingSets/CondoBorda at rule level are not stated (only their building blocks); the metamorphic oracle covers them.")
 
+claim("C07", "Coq theorem c07_droop_pc for ALL valid profiles, m, candidate subsets S, k, tie-break settings and scripts: under the Droop quota with the fractional or random transfer, a solid coalition worth k thresholds elects at least min(k,|S|,m) members of S (invariant over rounds: coalition weight >= (k - elected) * t while members stand; a member is eliminated only when more stand than thresholds remain), and IRV majority as a corollary; built on the proved STV round invariants (C01/C02/C03); per-run correspondence of the STV model plus an oracle that enumerates every candidate subset of every generated run.",
+      COMMON_NOTE + "Known finding: random-transfer shortage (ValueError) is outside the theorem's 'run returns states' hypothesis.")
+claim("C15", "Coq theorems for any number of candidates: interval normalisation (zero supports set aside, shares = s/sum, sum to one, exact error characterisation), combination = proportion x share, name-Bradley-Terry table = normalised product over ordered pairs of x/(x+y) (via permutation-invariance of prod (x_i+x_j)), slate-Bradley-Terry table over all distinct arrangements with exponents own-above-other / other-above-own summing to a*b, both tables sum to one; per-run comparison of the implementation's float tables with the exact rational model within 1e-9.",
+      COMMON_NOTE + "numpy/Python float rounding is trusted to stay below the 1e-9 tolerance; inputs are dyadic floats so their exact value is known.")
+claim("C17", "Coq theorems over finite rational distributions: RandomDictator step law = share of current first-place weight with ties split evenly (and the population of the law is literally the logged random.choices argument), multi-seat law = product along the path with mass 1, BoostedRandomDictator = (1/(c-1)) squares rule + (1 - 1/(c-1)) RandomDictator with the branch condition u <= 1/(c-1), uniform random tiebreak: every order 1/n!, every position 1/n, k contested seats k/n, eliminated 1/n; per-run correspondence of the recorded primitive ARGUMENTS (population, weights, p) and outcomes.",
+      COMMON_NOTE + "Laws of the primitives themselves (random.choices, random.sample, random.uniform, numpy choice) are trusted. Known finding: exhausted ballots.")
+claim("C18", "Coq theorems from the parsed table: one ballot per distinct row pattern of the selected rank columns in column order, weight = row count / summed weight column, total = rows, voter sets, blank cells, exact error order (empty data, blank id, duplicate id); Scottish format: declared seats/ward/candidates/parties, per-ranking weights = declared multiplicities, metadata errors; to_csv rows; cleaning-module functions (C12_cleaning). Per-run end-to-end correspondence on generated CSV and Scottish files (csv.writer quoting, delimiters, column subsets/orders, id/weight columns anywhere) and the malformed variants.",
+      COMMON_NOTE + "pandas.read_csv / csv.reader parsing of well-formed files is exercised end-to-end but not modelled.")
+claim("C19", "Coq theorems: Lp sum = p-norm^p of the difference of normalised ranking distributions (independent of the key order), symmetry, zero iff same distribution, invariance under reordering/condensing/rescaling, triangle inequality for p=1, inf (over Q), p=2 (Cauchy-Schwarz, root-free) and every natural p (Minkowski over R via convexity); ballot graph: node and edge sets for n = 2..6 by kernel-checked reflection against all-n characterisations of the spec, node weights add up to the total. Per-run correspondence (exact sums; floats within 1e-9) and exact graph comparison for n = 2..6.",
+      COMMON_NOTE + "Only c19_triangle_p / c19_minkowski* / c19_pow_convex depend on axioms: ClassicalDedekindReals.sig_forall_dec and FunctionalExtensionality.functional_extensionality_dep (Coq.Reals). The graph theorems use vm_compute (n=6: ~90 s).")
+
 PENDING_REASON = "check under construction in this round (model/proofs being built); will be claimed once its check is live"
 
 checks = []
